@@ -158,12 +158,8 @@ def main():
     known = load_known()
     known_sigs = {f["signature"]: f for f in known.get("findings", []) if f.get("property") == pid}
 
-    # 1. broken build / proofs
-    if not ok_build or not props["ok"]:
-        rp = write_replay(pid, {"property": pid, "kind": "proof-obligation-broken",
-                                "what": "hand-written Coq development / Props/%s.v no longer checks" % pid,
-                                "log": props["log"][-3000:]})
-        violations_out.append((rp, " no-failing-input-found"))
+    # 1. broken build / proofs: reported below, unless the monitor produces a concrete failing input
+    proof_broken = (not ok_build) or (not props["ok"])
     if res is None and ok_build:
         rp = write_replay(pid, {"property": pid, "kind": "harness-failure", "notes": notes})
         violations_out.append((rp, " no-failing-input-found"))
@@ -184,6 +180,9 @@ def main():
         n_viol = len(new_viol)
         for sig, f in known_sigs.items():
             known_lines.append("KNOWN-FINDING: property=%s %s" % (pid, f.get("text", sig)))
+        if proof_broken and new_viol:
+            proof_broken = False      # the concrete violation(s) above are the report; the broken obligation is recorded in the evidence
+            notes.append("proof obligation / Gen of %s no longer checks: %s" % (pid, props["log"][-600:]))
         if res.disagreements and not new_viol:
             d = res.disagreements[0]
             rp = write_replay(pid, {"property": pid, "kind": "correspondence-broken",
@@ -191,6 +190,13 @@ def main():
                                     "correspondence": d.get("driver"), "first_disagreement": d,
                                     "disagreements": len(res.disagreements), "more": res.disagreements[1:6]})
             violations_out.append((rp, " no-failing-input-found"))
+
+    if proof_broken:
+        rp = write_replay(pid, {"property": pid, "kind": "proof-obligation-broken",
+                                "what": "Coq development / Gen / Props/%s.v no longer checks against the current source; the search "
+                                        "(%s evaluated cases, monitor on implementation traces) found no failing input" % (pid, res.evaluations if res is not None else 0),
+                                "log": props["log"][-3000:]})
+        violations_out.append((rp, " no-failing-input-found"))
 
     # evidence
     obligations = len([n for n in props["theorems"] if not n.startswith("ex_")])
